@@ -11,22 +11,27 @@ SEED = 0
 LEXMAX = (1 << 31) - 1
 
 # ------------------------------------------------------------------ python slice rule as a z3 predicate
-def slice_correct(L, start, stop, step, positions):
-    """start/stop: None or 32-bit bv ; step: 32-bit bv (!= 0). positions: concrete list. Returns z3 Bool: positions is exactly
-    Python's list(range(L))[start:stop:step]. 64-bit arithmetic: no wrap-around possible for |values| < 2^31 and L <= 64."""
+def slice_bounds(L, start, stop, step):
+    """Python's slice.indices(L) as 64-bit z3 terms: (a, b, st, neg)"""
     st = sx(step); Lb = z3.BitVecVal(L, 64); neg = st < 0
     def adj(x, dflt_pos, dflt_neg):
         if x is None: return z3.If(neg, z3.BitVecVal(dflt_neg, 64), z3.BitVecVal(dflt_pos, 64))
         x = sx(x); x1 = x + Lb
         return z3.If(x < 0, z3.If(x1 < 0, z3.If(neg, z3.BitVecVal(-1, 64), z3.BitVecVal(0, 64)), x1),
                      z3.If(x >= Lb, z3.If(neg, Lb - 1, Lb), x))
-    a = adj(start, 0, L - 1); b = adj(stop, L, -1)
+    return adj(start, 0, L - 1), adj(stop, L, -1), st, neg
+def positions_ok(bounds, positions):
+    a, b, st, neg = bounds
     k = len(positions)
     if k == 0: return z3.If(neg, a <= b, a >= b)
     cs = [a + i * st == p for i, p in enumerate(positions)]
     last = a + (k - 1) * st; nxt = a + k * st
     cs.append(z3.If(neg, z3.And(last > b, nxt <= b), z3.And(last < b, nxt >= b)))
     return z3.And(*cs)
+def slice_correct(L, start, stop, step, positions):
+    """start/stop: None or 32-bit bv ; step: 32-bit bv (!= 0). positions: concrete list. Returns z3 Bool: positions is exactly
+    Python's list(range(L))[start:stop:step]. 64-bit arithmetic: no wrap-around possible for |values| < 2^31 and L <= 64."""
+    return positions_ok(slice_bounds(L, start, stop, step), positions)
 
 # ------------------------------------------------------------------ job A: variable::slice on arrays of length L
 def job_slice(item):
